@@ -18,6 +18,7 @@ import (
 
 	"github.com/free5gc/go-upf/internal/forwarder"
 	"github.com/free5gc/go-upf/internal/logger"
+	"github.com/free5gc/go-upf/internal/report"
 	"github.com/free5gc/go-upf/pkg/factory"
 )
 
@@ -194,6 +195,43 @@ func TestVerifReplay(t *testing.T) {
 		if int(sess.URRIDs[1].refPdrNum) != 0 {
 			fmt.Println("REPLAY-CONFIRMED refagain: a Create PDR for an id the session already holds replaces the PDR's URR list without releasing the references of the replaced list; no PDR names the URR any more but it still counts as referenced")
 		}
+	case strings.Contains(m.Obligation, "RemoveURR#ok") || strings.Contains(m.Obligation, "RemoveURR#unmarked"):
+		// a data plane that refuses to remove URR 1 once; the same Session Modification Request also removes the only PDR
+		// that refers to URR 1, which yields a usage report for it; then the session is deleted
+		cfg := &factory.Config{Pfcp: &factory.Pfcp{Addr: "127.0.0.1", NodeID: "127.0.0.1", RetransTimeout: time.Hour, MaxRetrans: 1}}
+		drv := &verifRefusingDriver{dp: map[string]bool{}, refuse: 1}
+		s := NewPfcpServer(cfg, drv)
+		rn := s.NewNode("smf1", &net.UDPAddr{IP: net.IPv4(10, 0, 0, 1), Port: 8805}, drv)
+		s.rnodes["smf1"] = rn
+		sess := rn.NewSess(7)
+		if err := sess.CreateURR(ie.NewCreateURR(ie.NewURRID(1), ie.NewMeasurementMethod(0, 1, 0))); err != nil {
+			t.Fatal(err)
+		}
+		if err := sess.CreatePDR(ie.NewCreatePDR(ie.NewPDRID(1), ie.NewURRID(1))); err != nil {
+			t.Fatal(err)
+		}
+		mod := message.NewSessionModificationRequest(0, 0, sess.LocalID, 5, 0,
+			ie.NewRemoveURR(ie.NewURRID(1)), ie.NewRemovePDR(ie.NewPDRID(1)))
+		raw, _ := mod.Marshal()
+		parsed, err := message.Parse(raw)
+		if err != nil {
+			t.Fatal(err)
+		}
+		peer := &net.UDPAddr{IP: net.IPv4(10, 0, 0, 1), Port: 8805}
+		s.handleSessionModificationRequest(parsed.(*message.SessionModificationRequest), peer)
+		_, known := sess.URRIDs[1]
+		fmt.Printf("after the Modification Request (Remove URR 1 refused by the data plane, Remove PDR 1 accepted): URR 1 still in the data plane: %v, still in the session's bookkeeping: %v\n", drv.dp["URR/1"], known)
+		del := message.NewSessionDeletionRequest(0, 0, sess.LocalID, 6, 0)
+		raw, _ = del.Marshal()
+		parsed, err = message.Parse(raw)
+		if err != nil {
+			t.Fatal(err)
+		}
+		s.handleSessionDeletionRequest(parsed.(*message.SessionDeletionRequest), peer)
+		fmt.Printf("after Session Deletion: session live: %v, URR 1 still in the data plane: %v\n", s.lnode.sess[0] != nil, drv.dp["URR/1"])
+		if drv.dp["URR/1"] && s.lnode.sess[0] == nil {
+			fmt.Println("REPLAY-CONFIRMED removed: a URR whose removal the data plane refused is marked removed; a usage report for it in the same request makes the handler drop its bookkeeping, and the rule outlives the session")
+		}
 	case strings.Contains(m.Obligation, "UpdateNodeID#reg"):
 		// two associated nodes with one session each; a modification request for a session of smfA names smfB as
 		// the new node id (TS 29.244 7.5.4) and the handler calls UpdateNodeID(smfA's node, "smfB")
@@ -212,4 +250,31 @@ func TestVerifReplay(t *testing.T) {
 	default:
 		fmt.Println("no replay case for", m.Obligation)
 	}
+}
+
+// verifRefusingDriver: a data plane that records the URRs it holds and refuses the first `refuse` Remove URR requests.
+type verifRefusingDriver struct {
+	forwarder.Empty
+	dp     map[string]bool
+	refuse int
+}
+
+func (d *verifRefusingDriver) CreateURR(seid uint64, req *ie.IE) error {
+	id, _ := req.URRID()
+	d.dp[fmt.Sprintf("URR/%d", id)] = true
+	return nil
+}
+
+func (d *verifRefusingDriver) RemoveURR(seid uint64, req *ie.IE) ([]report.USAReport, error) {
+	id, _ := req.URRID()
+	if d.refuse > 0 {
+		d.refuse--
+		return nil, fmt.Errorf("data plane busy")
+	}
+	delete(d.dp, fmt.Sprintf("URR/%d", id))
+	return []report.USAReport{{URRID: id}}, nil
+}
+
+func (d *verifRefusingDriver) QueryURR(seid uint64, urrid uint32) ([]report.USAReport, error) {
+	return []report.USAReport{{URRID: urrid}}, nil
 }
